@@ -10,7 +10,7 @@ REKEY = 2**60
 
 class Prop:
     pid = "C04"
-    vo_check = ["theories/Nonce/Check.vo"]
+    vo_check = ["theories/Nonce/Check.vo", "theories/Gen/NonceProg.vo", "theories/Nonce/Prog.vo"]
     vo_props = ["theories/Props/C04.vo"]
     k_names = ["numbering(device under co-simulation == Nonce.Seq.dstep incl. sendNonce after every step; Nonce.Spec.seq_check on the observed datagrams; the device comes to rest)",
                "stress(every (receiver index, counter) seen under concurrent flushers passes Nonce.Spec.conc_holdsb)",
@@ -28,13 +28,46 @@ class Prop:
                    "fewer than 2^13 goroutines flush one keypair at the same time (the proof's hypothesis; the device has about 5 per peer)",
                    "time-based expiry (120/180 s) is not exercised here (C07); staged queue stays below its 128 containers in the scenarios",
                    "stress traces are observations of some schedules, not all: the link goroutines <-> thread programs is trace validation"]
-    trusted_extra = ["Base/Ints.v: primitive Uint63 literals carry counters in generated case files only",
+    trusted_extra = ["translator harness/cmd/nonceprog (go/parser over device/*.go without test and verif-tag files: renders the guard, "
+                     "numbering expression, over-limit test and clamp of SendStagedPackets and every other access to a field named "
+                     "sendNonce; whatever it does not recognise becomes OOther / p_extra, which breaks C04_source_thread_program)",
+                     "Base/Ints.v: primitive Uint63 literals carry counters in generated case files only",
                      "harness/stress (perturbation, packet ids), harness/cosim + ref (independent remote party)",
                      "hooks VerifSetSendNonce / VerifShiftHandshakeTimes applied only at quiescent points"]
 
     def __init__(self):
         self.dir = os.path.join(vlib.OUT, "C04")
         self.extra_coverage = {}
+        # translator G2: the thread program over Keypair.sendNonce, regenerated from the source on every run
+        self.translators = [lambda: vlib.gen_file("nonceprog", os.path.join("Gen", "NonceProg.v"), ["-repo", vlib.REPO])]
+
+    def model_search(self, broken):
+        """The theorems about the program extracted from the source no longer check: search the interpreter
+        (Nonce/Prog.v: two flushers x two elements, one expiry anywhere, depth 11, counter next to the limit / at 0)
+        for a schedule on which a counter is handed out twice or at/after the limit."""
+        d = os.path.join(self.dir, "modelsearch")
+        os.makedirs(d, exist_ok=True)
+        open(os.path.join(d, "Search.v"), "w").write(
+            "From WG Require Import Base.Prelude Gen.Constants Nonce.Seq Nonce.Conc Nonce.ProgSyntax Nonce.Prog Gen.NonceProg.\n"
+            "Definition w := Eval vm_compute in match search Gen.NonceProg.prog 11 with\n"
+            "  | Some (n0, s) => (1%N, n0, map act_code s, rev (emitted (prun Gen.NonceProg.prog 2 (init n0 (fun _ => 2%nat)) s)))\n"
+            "  | None => (0%N, 0%N, [], []) end.\nPrint w.\n")
+        rc, o = vlib.sh(["timeout", "600", "coqc", "-Q", os.path.join(vlib.COQ, "theories"), "WG", "Search.v"], cwd=d)
+        if rc != 0:
+            return None
+        flat = " ".join(o.split())
+        import re
+        m = re.search(r"w = \((\d+)%N, (\d+)%N, \[([^\]]*)\], \[([^\]]*)\]\)", flat)
+        if not m or m.group(1) != "1":
+            return None
+        nums = lambda t: [int(x) for x in re.findall(r"(\d+)%N", t)]
+        sched = ["Expire (ExpireCurrentKeypairs' Store)" if a == 99 else "Step of flusher %d" % a for a in nums(m.group(3))]
+        prog = open(os.path.join(vlib.COQ, "theories", "Gen", "NonceProg.v")).read()
+        return {"signature": "extracted-thread-program-hands-out-a-counter-twice-or-beyond-the-limit",
+                "extracted_program": prog, "start_counter": int(m.group(2)), "flushers": 2, "elements_per_flusher": 2,
+                "schedule": sched, "counters_emitted_in_order": nums(m.group(4)),
+                "replay": "coqc -Q coq/theories WG out/C04/modelsearch/Search.v   (interpreter Nonce/Prog.v on Gen/NonceProg.v as "
+                          "regenerated from the tree under test by out/bin/nonceprog -repo <tree>)"}
 
     def _load(self, d):
         meta = json.load(open(os.path.join(d, "cases.json")))
